@@ -510,6 +510,8 @@ class SymInt(Sym):
         return s._mk(-s.t)
 
     def __mul__(s, o):
+        if isinstance(o, list) and len(o) == 1:
+            return FillList(o[0], s)          # [x] * n with symbolic n
         if not _intlike(o):
             return NotImplemented
         ub = None
@@ -658,6 +660,14 @@ class SymInt(Sym):
         return "SymInt(%s)" % self.t
 
     __str__ = __repr__
+
+
+class FillList(Sym):
+    """[value] * count with a symbolic count (only convertible to bytes/bytearray)"""
+    __slots__ = ("value", "count")
+
+    def __init__(self, value, count):
+        self.value, self.count = value, count
 
 
 class SymReal(Sym):
